@@ -157,4 +157,38 @@ PROPS = {
              "is distinct by (family, rewrite@target)",
         trusted=["quick-xml tokenisation (absorbs the tokenizer-level rewrites)"],
     ),
+    "C10": dict(
+        thm=["Bgpfu.Thm.C10"],
+        ops=[("ser", ["cfg=c101"])],
+        level_text="Theorems for all byte strings (no bound on lengths or tree size): unescape(escape s) = s; escape never "
+                   "emits < > \" ' and & only as one of the five references; a request whose raw leaves are marker-free "
+                   "carries the delimiter exactly once, at the end (it is well framed in the sense of C06); well-formed "
+                   "fragments give a single well-formed element; every escaped text / attribute leaf is delimited by the "
+                   "next < / \" and a conforming parser (line-end + attribute-value normalisation, references) reads back "
+                   "the caller's value; a table of which parameter of which operation is raw. Counter-examples (kernel-"
+                   "evaluated) for the code as it is: raw text/JSON payloads (D7), TAB/LF/CR in attributes and CR in text "
+                   "(D17), a well-formed fragment carrying the delimiter (D18). The writer model is compared byte for byte "
+                   "with the real builders + to_xml on ~950 operation x value cases; an independent strict XML 1.0 parser "
+                   "is the oracle for well-formedness and value recovery on the real bytes.",
+        level_note="Theorems are about the Lean tree/render model (Model/Writers.lean); that the real builders produce "
+                   "exactly those bytes is sampled (every operation, every free-text slot x ~35 adversarial values, every "
+                   "raw slot x 16 fragments, agent payloads through the plan facade). WFC is the XML subset the writers "
+                   "produce (no CDATA/comments/PIs/DOCTYPE, double-quoted attributes, no literal > in character data); "
+                   "fragments outside the subset are covered through the parameter F of wf_of_wf_fragments. The Char "
+                   "production and namespace constraints are not modelled (the harness parser checks Char; unbound "
+                   "prefixes are counted, not judged).",
+        rule="every operation reachable through the public builders (19 rpc operations incl. all load-configuration "
+             "format x action combinations, client hello, close-session) x adversarial values (XML metacharacters, both "
+             "quotes, the delimiter, its pieces, references, CDATA/comment look-alikes, non-ASCII, empty, 4.6 kB, "
+             "TAB/LF/CR, random strings over a metacharacter alphabet) in every free-text slot; 16 fragments (well-formed, "
+             "well-formed with delimiter, ill-formed) in every raw slot; agent create/update/delete payloads for 9 names x "
+             "5 filter expressions x range sets; a case is distinct by (message-id, operation, parameter tuple)",
+        trusted=["the harness's strict XML 1.0 parser (harness/src/xmlstrict.rs, self-tested; tied to the Lean parseText / "
+                 "parseAttr by `ser parse` correspondence rows on every leaf it extracts)",
+                 "chrono / Display formatting of at-time, numbers, prefixes and filter expressions (their results are "
+                 "ordinary escaped leaves)"],
+        assumptions=["values are strings of XML 1.0 Chars", "caller-supplied fragments are well-formed content",
+                     "load-configuration sources ConfigurationRevision / Rollback / Url have no public constructor: "
+                     "modelled, not exercised"],
+    ),
 }
